@@ -7,7 +7,8 @@ VERIF = os.path.abspath(os.path.join(os.path.dirname(__file__), ".."))
 
 TB = ("Lean 4.33 kernel; axioms propext/Classical.choice/Quot.sound only (audited each run); the hand-written "
       "Lean model is tied to /repo by the differential correspondence run of the check (generator-bounded) and by "
-      "tables regenerated from the C source through the C compiler on every run")
+      "tables and handler facts (state guards, category switches, lint channels, connect-time values) regenerated from the C "
+      "source through the C compiler / clang AST on every run")
 
 CHECKS = {
     "C01": dict(
@@ -98,7 +99,7 @@ CHECKS = {
         technique="Lean 4 invariant proofs over the CPU bookkeeping + differential ovniemu runs + recomputation oracle",
         design="DESIGN.md §5 C05"),
     "C06": dict(
-        text=("Theorems (Props/C06.lean, 33) over a mechanism-level transcription of bay.c (growing dirty list processed by index, "
+        text=("Theorems (Props/C06.lean, 51) over a mechanism-level transcription of bay.c (growing dirty list processed by index, "
               "ordered enabled-callback lists, dirty/emit/flush phases), mux.c (cb_select, cb_input, DIRTY_WRITE/ALLOW_DUP "
               "outputs), track.c, thread_select_running/active and connect_cpu: for ONE mux in any network satisfying the frame "
               "condition, any set of writes to the select and input channels in any order followed by propagation with ANY order "
@@ -110,8 +111,14 @@ CHECKS = {
               "by th_running or the default: these are thView / cpuView of the reference emulator (track_thread_view, "
               "track_thread_thView, track_cpu_view, track_cpu_cpuView), lifted to any number of threads, CPUs and channels "
               "(topology_frame, topology_thread_rows, topology_cpu_rows); the generated channel specs use only these modes "
-              "(generated_thread_modes, generated_cpu_modes, decide). OPEN: the simulation from the handlers of Emu/Core to "
-              "the bay writes is a hypothesis of track_*_thView/cpuView (tested by the e2e run). Tie: X1 the real chan.c/"
+              "(generated_thread_modes, generated_cpu_modes, decide). The bay connected from the emulator's hierarchy the way "
+              "model_thread_connect/model_cpu_connect do (bayOf) is well formed and connect cannot fail (bayOf_topology, "
+              "bayOf_connects); every handler of the reference emulator is a sequence of bay writes on mirrored source "
+              "channels, so after EVERY accepted event and every accepted history the thread-track outputs equal thView and "
+              "the CPU-track outputs equal cpuView (emu_event, emu_init, emu_history, emu_run_driver; one exception stated "
+              "and witnessed: a CPU track with a non-null default shows null until th_running is first written, as in C). "
+              "These are VALUES of rows; the emit callbacks / prv.c duplicate flags and the task-layer hook remain "
+              "hypotheses (OPEN, tested by the e2e run). Tie: X1 the real chan.c/"
               "bay.c/mux.c/track.c in an ASan/UBSan harness vs the Lean bay on random networks (values, last values, dirty "
               "flags, selected/enabled inputs, dirty-list and emit order) plus a spec oracle; X2 ovniemu vs the reference "
               "emulator and independent oracles recomputing every thread row from the raw history and every CPU row from the "
@@ -325,7 +332,8 @@ CHECKS = {
         design="DESIGN.md §5 C17"),
     "C18": dict(
         text=("Theorems (Props/C18.lean) over a transcription of ev_spec_compile / ev_spec_print / model_evspec_init and of the "
-              "category switches of the eight event.c files, with the event lists and tables REGENERATED from /repo: for every "
+              "category switches of the eight event.c files, with the event lists, tables AND the category/value switches REGENERATED "
+              "from /repo (clang AST, Generated/Handlers.lean): for every "
               "model and every code (all Nat triples, not only printable) the handler recognises it IFF it is listed or is an "
               "enumerated exception (catalogue_eq, declared_handled, undeclared_rejected, handled_own_model), the exceptions "
               "being exactly ovni OB*/OU* (value byte ignored) and the legacy 6TC (exceptions_enumerated); every signature "
@@ -337,8 +345,8 @@ CHECKS = {
               "payloads and boundary buffer sizes; one probe trace per code through ovniemu in a legal context (quick: "
               "~15k codes; thorough: all 95x95x8 printable codes + non-printable + foreign); ovnidump lines for every "
               "listed event with random arguments vs the model and an independent Python substitution."),
-        note=TB + "; printf subset [#][hh|h|l|ll|j]{d,i,u,x,X,s} on LP64 glibc; category switches hand-written (tied by the "
-             "exhaustive probes); ASCII strings",
+        note=TB + "; printf subset [#][hh|h|l|ll|j]{d,i,u,x,X,s} on LP64 glibc; category switches extracted by tools/gen/gen_handlers.py from the clang AST "
+             "(constants confirmed by gcc _Static_assert; unrecognised constructs fail the translator self-check); ASCII strings",
         technique="Lean 4 iff over generated tables (decide +kernel per model) + exhaustive probe correspondence (ovniemu, ovnidump, C harness)",
         design="DESIGN.md §5 C18"),
     "C19": dict(
@@ -359,14 +367,16 @@ CHECKS = {
         technique="Lean 4 termination/bounds theorems over a byte-level cursor + sanitizer-instrumented mutation runs of the four tools",
         design="DESIGN.md §5 C19"),
     "C20": dict(
-        text=("Theorems (Props/C20.lean, 17): sort_replace = insertSorted . erase under its preconditions, hence sorted and an exact "
+        text=("Theorems (Props/C20.lean, 28): sort_replace = insertSorted . erase under its preconditions, hence sorted and an exact "
               "multiset update (sort_replace_spec, sort_replace_sorted_multiset); after every history of input changes the sort "
               "rows are non-decreasing and a permutation of the inputs (rows_are_sorted_values, for any qsort that returns a sorted "
               "permutation, any n); an output is written iff its value changes, in increasing index order (minimal_writes, "
               "writes_increasing, no_change_no_write); the breakdown value fed to the sort equals spec(subsystem, task type, idle) "
               "whenever mux0's selection is fresh, with the freshness side condition explicit and the only two stale classes "
-              "characterised (breakdown_value, fresh_after_ss, fresh_preserved_iff, stale_select_classes); per-CPU dirty-order "
-              "theorem dirty_level_ordered_partial (global registration order not modelled: OPEN); system_rows: rows = "
+              "characterised (breakdown_value, fresh_after_ss, fresh_preserved_iff, stale_select_classes); the order in which a "
+              "CPU's task-type/subsystem/idle channels enter the dirty list (orderOk) is DERIVED from the registration order of "
+              "the connected bay for thread-state and affinity events (dirty_level_ordered_sys, _thread_events, "
+              "_affinity_events) and stays a hypothesis for the task events VTx/VTe/VTp/VTr (OPEN: task-layer hook); system_rows: rows = "
               "sorted(per-CPU values). Tie: the real sort.c and the real nosv/nanos6 breakdown.c (connect_cpu, select_tr, "
               "select_idle) in an ASan/UBSan harness, bounded-exhaustive + random, vs the Lean model and a property oracle; "
               "`ovniemu -b -l` on random nOS-V/Nanos6 traces vs an oracle recomputed from cpu.prv and vs the model. Four "
